@@ -607,6 +607,8 @@ func (m *Machine) expr(e Expr) (Value, signal) {
 		return e.V, signal{}
 	case NoneLit:
 		return OptV{}, signal{}
+	case NullLit:
+		return NullV{}, signal{}
 	case Grouped:
 		return m.expr(e.X)
 	case ListLit:
